@@ -12,13 +12,13 @@ from .. import replay
 PROP = "C05"
 INV = ("Aligned", "NoDupAtoms", "BondsInside")
 PROPS = ("KeepsGiven", "MovesExactlySelected", "DeleteRemovesExactlyIncident", "FailedIsNoOp")
-ACTIONS = ("AddAtom", "AppendAtom", "Connect", "AppendBond", "DelBond", "DelAtomObj", "DelAtomIdx", "DelAtomLabel",
+ACTIONS = ("AddAtom", "AppendAtom", "Connect", "AppendBond", "AppendBonds2", "DelBond", "DelAtomObj", "DelAtomIdx", "DelAtomLabel",
            "DelAtomElem", "RemoveSubstituent", "AddH", "SubTranslate", "Clone", "MakeView", "ViewTranslate")
 
 
-def cfg(ids, fresh, maxlive, charges, dev="DevNone", maxview=1):
-    return dict(spec="Spec", constants={"AtomId": f"<- {ids}", "Fresh": f"<- {fresh}", "FreshAP": "<- AP1", "ElemOf": "<- ElemM", "LabelOf": "<- LabelM",
-                                        "Valence": "<- ValM", "QGiven": "<- QG", "MaxLive": maxlive, "MaxView": maxview,
+def cfg(ids, fresh, maxlive, charges, dev="DevNone", maxview=1, maxpar=0, ap="AP1"):
+    return dict(spec="Spec", constants={"AtomId": f"<- {ids}", "Fresh": f"<- {fresh}", "FreshAP": f"<- {ap}", "ElemOf": "<- ElemM", "LabelOf": "<- LabelM",
+                                        "Valence": "<- ValM", "QGiven": "<- QG", "MaxLive": maxlive, "MaxView": maxview, "MaxPar": maxpar,
                                         "HasCharges": "TRUE" if charges else "FALSE", "Deviations": f"<- {dev}"},
                 invariants=INV, properties=PROPS, view="View")
 
@@ -26,6 +26,7 @@ def cfg(ids, fresh, maxlive, charges, dev="DevNone", maxview=1):
 def norm(o):
     o = dict(o)
     o["bonds"] = sorted(sorted(b) for b in o["bonds"])
+    o["dbl"] = sorted(sorted(b) for b in o.get("dbl", []))
     o["atoms"] = list(o["atoms"])
     o["coords"] = [None if c.get("base") == "any" else c for c in o["coords"]]   # library-placed: not constrained
     o["chgs"] = list(o["chgs"])
@@ -40,10 +41,19 @@ def norm_act(a):
     return a
 
 
-def one(tier, seed, ev, rep, kind, ids, fresh, maxlive, budget, maxview=1):
+def one(tier, seed, ev, rep, kind, ids, fresh, maxlive, budget, maxview=1, maxpar=0, ap="AP1"):
     from ..adapters.moledit import MolEditAdapter
-    c = cfg(ids, fresh, maxlive, kind == "Molecule", maxview=maxview)
-    acts = ACTIONS if maxview > 0 else tuple(a for a in ACTIONS if a not in ("MakeView", "ViewTranslate"))
+    c = cfg(ids, fresh, maxlive, kind == "Molecule", maxview=maxview, maxpar=maxpar, ap=ap)
+    skip = set()
+    if maxview == 0:
+        skip |= {"MakeView", "ViewTranslate"}
+    if fresh == "Fr0":
+        skip |= {"AddH"}
+    if ap == "AP0":
+        skip |= {"RemoveSubstituent"}
+    if maxlive < 3:
+        skip |= {"AppendBonds2"}                 # a batch of two different bonds needs three atoms
+    acts = tuple(a for a in ACTIONS if a not in skip) + (("AppendBondPar",) if maxpar > 0 else ())
     model_check(ev, "MCMolEdit", c, role=f"MolEdit {kind} {ids} {fresh} live<={maxlive} view<={maxview}", tag="c05mc",
                 require_actions=acts, timeout=1800)
     edges = emit_graph(ev, "MCMolEdit", c, role=f"MolEdit edges {kind}", tag="c05emit", timeout=1800)
@@ -55,7 +65,7 @@ def one(tier, seed, ev, rep, kind, ids, fresh, maxlive, budget, maxview=1):
     stats, viol, _, _, samples = replay.cover_parallel(g, lambda: MolEditAdapter(kind), seed=seed, nproc=6 if tier == "quick" else 12,
                                                        max_path=40, budget_s=budget)
     ev.count(evaluations=stats["steps"], distinct_nontrivial=stats["pairs_exercised"], traces=stats["paths"])
-    ev.cov.setdefault("replay", {})[f"{kind},{ids},{fresh},{maxlive},view{maxview}"] = stats
+    ev.cov.setdefault("replay", {})[f"{kind},{ids},{fresh},{ap},{maxlive},view{maxview},par{maxpar}"] = stats
     ev.add_samples([{"kind": kind, "path": s} for s in samples], 1)
     seen = set()
     for v in viol:
@@ -71,6 +81,7 @@ def trace_cfg(kind):
     return dict(spec="TraceSpec", constants={
         "AtomId": "<- TraceIds", "Fresh": "<- TraceFresh", "FreshAP": "<- TraceFreshAP", "ElemOf": "<- TraceElem",
         "LabelOf": "<- TraceLabel", "Valence": "<- TraceVal", "QGiven": "<- TraceQ", "MaxLive": 100000, "MaxView": 100000,
+        "MaxPar": 100000,
         "HasCharges": "TRUE" if kind == "Molecule" else "FALSE", "Deviations": "<- DevNone"},
         invariants=("NoDupAtoms", "BondsInside"))
 
@@ -121,6 +132,8 @@ def run(tier, seed, replay_path):
     if tier == "quick":
         jobs += [lambda: one(tier, seed, ev, rep, "Molecule", "Ids3", "Fr1", 2, budget=25, maxview=1),
                  lambda: one(tier, seed, ev, rep, "Structure", "Ids3", "Fr1", 2, budget=10, maxview=0),
+                 # three live atoms, parallel bonds and the batch forms; no library-created atoms (keeps the graph small)
+                 lambda: one(tier, seed, ev, rep, "Molecule", "Ids3", "Fr0", 3, budget=25, maxview=0, maxpar=1, ap="AP0"),
                  lambda: direction_b(tier, seed, ev, rep)]
         with ThreadPoolExecutor(6) as ex:            # TLC runs in subprocesses: the pieces overlap
             for f in [ex.submit(j) for j in jobs]:
@@ -132,6 +145,9 @@ def run(tier, seed, replay_path):
         one(tier, seed, ev, rep, "Molecule", "Ids3", "Fr1", 3, budget=240, maxview=0)
         one(tier, seed, ev, rep, "Molecule", "Ids3", "Fr1", 2, budget=150, maxview=2)
         one(tier, seed, ev, rep, "Structure", "Ids3", "Fr1", 2, budget=90, maxview=1)
+        one(tier, seed, ev, rep, "Molecule", "Ids3", "Fr0", 3, budget=120, maxview=0, maxpar=1, ap="AP0")
+        one(tier, seed, ev, rep, "Structure", "Ids3", "Fr1", 2, budget=60, maxview=1, maxpar=1)
+        one(tier, seed, ev, rep, "Structure", "Ids4", "Fr1", 3, budget=200, maxview=0, maxpar=1)
         direction_b(tier, seed, ev, rep)
     ev.set(rule="one case = one (model state, edit call) pair of the TLC graph replayed on a real Molecule/Structure; the "
                 "observation is keyed by atom identity; distinct_nontrivial = distinct pairs exercised within the time budget")
